@@ -430,7 +430,7 @@ class Ctx:
             json.dump(ev, fh, indent=1, default=str)
         for sig, what in self.known_hits:
             print("KNOWN-FINDING: property=%s %s [%s]" % (self.prop, what, sig))
-        for sig, what, path, found in self.violations[:20]:
+        for sig, what, path, found in sorted(self.violations, key=lambda v: not v[3])[:20]:      # concrete failing inputs first
             tail = "" if found else " no-failing-input-found"
             print("VIOLATION property=%s replay=%s%s" % (self.prop, path, tail))
         print("[%s %s seed=%d] cases=%d distinct=%d violations=%d known=%d wall=%.1fs" % (
